@@ -12,11 +12,11 @@ RULE = ("random scripts of 4-40 segments over 1-6 interleaved flows (tuples diff
         "endpoints, IPv4 and IPv6), acknowledgement numbers drawn from {cookie+1, cookie, cookie+2, 0, 1, random}, sequence "
         "numbers next to 2^32 so that seq+len wraps, payload lengths 0..1460 (random bytes and real application "
         "requests), extra flags (URG/ECE/CWR/NS/FIN/SYN) next to PSH|ACK, bare ACK / RST / FIN|ACK segments, data before any "
-        "SYN, after FIN|ACK, after a table reset; every reply (or silence) and the table size are compared with the "
+        "SYN, after FIN|ACK, after a table reset, control segments carrying the flow's own cookie+1, and flows whose cookie is exactly 0 / 0xFFFFFFFF (ack 0 must be accepted resp. rejected); every reply (or silence) and the table size are compared with the "
         "connection model. Non-trivial = script with at least one accepted and one rejected data segment; distinct = "
         "distinct abstract scripts (per step: flow, flags, ack class, length class, outcome).")
 ASSUME = ["the cookie of a flow is whatever sequence number the responder puts in the SYN-ACK of a probe SYN on that flow",
-          "acceptance of ack = 0 needs a flow whose cookie is 0xFFFFFFFF (probability 2^-32): rejection of ack = 0 is tested, acceptance is out of reach",
+          "flows whose cookie is 0x00000000 / 0xFFFFFFFF (so that cookie+1 wraps to 0) come from witnesses.json (brute-forced offline under the assumption that the cookie is SipHash-2-4 of the tuple; re-validated by a probe SYN at run time and skipped if stale)",
           "segments combining RST with PSH|ACK are not generated (the statement does not decide them)"]
 
 KNOWN_COLLISION = "cookie-collision"
@@ -104,7 +104,7 @@ def script(ctx, cfg, model, cookies):
             continue
         if act < 0.22:
             fl = rng.choice([ACK, RST, FIN | ACK, FIN | ACK])
-            q_ack = rng.choice([s["peer"], rng.getrandbits(32), 0])
+            q_ack = rng.choice([s["peer"], rng.getrandbits(32), 0] + ([(cookies[f_id] + 1) & 0xFFFFFFFF] * 2 if f_id in cookies else []))
             f = fe.tcp(fsp, fdp, s["seq"], q_ack, fl)
             r = ctx.send(f)
             q = pkt.parse(f)
@@ -212,11 +212,57 @@ def reproduce_known(ctx):
             ctx.stats["known_witness_now_rejected"] += 1
 
 
+def boundary_cookies(ctx):
+    """Flows whose cookie is 0x00000000 / 0xFFFFFFFF (witnesses found offline, re-validated here by a probe SYN):
+    ack = cookie + 1 (mod 2^32) is 1 resp. 0."""
+    import json
+    import os
+    from .. import build
+    try:
+        ws = json.load(open(os.path.join(build.VERIF, "witnesses.json")))["boundary_cookies"]
+    except Exception:
+        return
+    for w in ws:
+        cfg = Config(pkt.mac("c0:ff:ee:c0:ff:ee"), None, None, (int(w["key"][0], 16), int(w["key"][1], 16)), "n", 0)
+        ctx.case(cfg)
+        e = pkt.Endp(pkt.mac("02:00:00:00:00:77"), cfg.mac, pkt.ip(w["src"]), pkt.ip(w["dst"]))
+        sp, dp, want = w["sport"], w["dport"], int(w["cookie"], 16)
+        r = ctx.send(e.tcp(sp, dp, 9, 0, SYN))
+        a = pkt.parse(r.reply) if r.kind == "R" else {}
+        if a.get("seq") != want:
+            ctx.stats["boundary_witness_stale"] += 1
+            continue
+        good = (want + 1) & 0xFFFFFFFF
+        for bad in ((0, 1, 2, 0xFFFFFFFF) if want == 0 else (0xFFFFFFFF, 1, 0xFFFFFFFE, 2)):
+            if bad == good:
+                continue
+            f = e.tcp(sp, dp, 10, bad, PSH | ACK, b"GET / HTTP/1.1\r\n\r\n")
+            r = ctx.send(f)
+            ctx.stats["boundary_rejects"] += 1
+            if r.kind == "R":
+                ctx.violation("data_accepted_without_cookie:boundary", "flow with cookie %08x: data with ack=%d (valid is %d) was answered" % (want, bad, good),
+                              observed=r.reply.hex(), expected="silence")
+        f = e.tcp(sp, dp, 10, good, PSH | ACK, b"GET / HTTP/1.1\r\n\r\n")
+        r = ctx.send(f)
+        ctx.stats["boundary_accepts"] += 1
+        ctx.nontrivial("boundary", want)
+        if r.kind != "R":
+            ctx.violation("data_unanswered:boundary", "flow with cookie %08x: data with the valid ack=%d (cookie+1 mod 2^32) was not answered" % (want, good),
+                          observed=r.kind, expected="reply")
+        else:
+            errs = []
+            check_reply_fields(pkt.parse(r.reply), 0, pkt.parse(f), errs)
+            for e_ in errs:
+                ctx.violation(e_.split(" ")[0] + ":boundary", e_, observed=r.reply.hex())
+
+
 def shard(ctx, budget_s):
     rng = ctx.rng
     deadline = time.time() + budget_s
     if ctx.shard == 0:
         reproduce_known(ctx)
+    if ctx.shard == 1 % ctx.nshards:
+        boundary_cookies(ctx)
     n = 0
     while time.time() < deadline or n == 0:
         cfg = gen.rnd_config(rng, deny=False, logger="n", level=0)
